@@ -254,7 +254,7 @@ PROPS = {
                         "pattern match/resolve round trip (ts_pattern_match / _resolve)"],
     },
     "C20": {
-        "modules": ["contracts.c20_delta", "contracts.c05_collections"],
+        "modules": ["contracts.c20_delta", "contracts.c05_collections", "contracts.c05_window"],
         "level": "proof",
         "design_ref": "DESIGN.md section 8, C20",
         "trusted_base": [
